@@ -115,6 +115,19 @@ def run_family(fam: Family, res: common.Result, build, rule, trusted, assume, ex
                 res.known_hits[kid] = res.known_hits.get(kid, 0) + 1
                 known_lines.setdefault(kid, line)
         for f in fails[:1]:
+            if not res.failures:
+                try:
+                    small = shrink(fam, case, known_fn)
+                    if small is not case:
+                        o2 = _worker((fam, 0, 0, "quick", dict(spec=small["spec"], info=small["info"])))
+                        f2 = list(o2.get("fails") or [])
+                        if known_fn is not None and f2:
+                            f2, _ = known_fn(o2, f2)
+                        if f2:
+                            case, f = small, f2[0]
+                            res.notes.append("first failing document shrunk to %d rows" % (small["info"].get("n") or 0))
+                except Exception as e:  # noqa: BLE001 — shrinking is best effort
+                    res.notes.append(f"shrinking failed: {type(e).__name__}: {e}")
             res.fail(case, f)
         if i in drv and o["status"] == "ok":
             res.corr_checked += 1
@@ -127,6 +140,78 @@ def run_family(fam: Family, res: common.Result, build, rule, trusted, assume, ex
                     res.disagree(case, m)
     return common.finish(res, build, rule, trusted, assume, explanation=explanation,
                          known_lines=[known_lines[k] for k in sorted(known_lines)])
+
+
+def _truncate(case, m):
+    """the same document with only its first m rows (info kept consistent)"""
+    import copy
+
+    c = copy.deepcopy(case)
+    spec, info = c["spec"], c["info"]
+    if spec.get("kind", "table") != "table" or not isinstance(spec.get("df"), dict):
+        return None
+    spec["df"]["rows"] = spec["df"]["rows"][:m]
+    info["n"] = m
+    if isinstance(info.get("expect"), list):
+        info["expect"] = info["expect"][:m]
+    return c
+
+
+def _drop_component(case, key):
+    import copy
+
+    c = copy.deepcopy(case)
+    spec, info = c["spec"], c["info"]
+    if spec.get(key) is None:
+        return None
+    spec[key] = None
+    if key == "title":
+        info["has_title"] = False
+    elif key == "subline":
+        info["has_subline_txt"] = False
+    elif key in ("footnote", "source"):
+        info[key] = "absent"
+    elif key == "page_header":
+        info["has_ph"] = False
+    elif key == "page_footer":
+        info["has_pf"] = False
+    return c
+
+
+def shrink(fam: Family, case, known_fn=None, budget=40):
+    """smallest prefix of the table (binary search) and fewest optional components on which the oracle still fails"""
+    def fails(c):
+        if c is None:
+            return False
+        o = _worker((fam, 0, 0, "quick", dict(spec=c["spec"], info=c["info"])))
+        f = list(o.get("fails") or []) if "machinery" not in o else []
+        if known_fn is not None and f:
+            f, _ = known_fn(o, f)
+        return bool(f)
+    cur = case
+    n = cur["info"].get("n") or 0
+    lo, hi = 1, n            # invariant: prefix of length hi fails
+    tries = 0
+    while lo < hi and tries < budget:
+        mid = (lo + hi) // 2
+        tries += 1
+        cand = _truncate(cur, mid)
+        if fails(cand):
+            hi = mid
+        else:
+            lo = mid + 1
+    if hi < n:
+        t = _truncate(cur, hi)
+        if t is not None and fails(t):
+            cur = t
+    for key in ("title", "subline", "page_header", "page_footer", "footnote", "source"):
+        if tries >= budget:
+            break
+        tries += 1
+        cand = _drop_component(cur, key)
+        if fails(cand):
+            cur = cand
+    return cur
 
 
 def _first_diff(a, b):
